@@ -134,18 +134,6 @@ pub fn c11_get_key_string_n1() {
     get_key_string(1);
 }
 
-//@ harness: c11_get_key_string_n2 tier=thorough timeout=3000 kind=main mem=40 optional=1
-//@ encodes: op::data::get_key (string data, integer key), op::data::get::<char>
-//@ bound: string data of 2 characters of symbolic UTF-8 width, integer key = every i64
-//@ cuts: strcount maps
-#[cfg_attr(kani, kani::proof)]
-#[cfg_attr(kani, kani::unwind(10))]
-#[cfg_attr(kani, kani::stub(std::fmt::format, stub_format))]
-#[cfg_attr(kani, kani::stub(<serde_json::Value as std::clone::Clone>::clone, value_clone_model))]
-#[cfg_attr(verif_replay, test)]
-pub fn c11_get_key_string_n2() {
-    get_key_string(2);
-}
 
 //@ harness: c11_get_key_array tier=quick timeout=600 kind=main mem=6
 //@ encodes: op::data::get_key (array data, integer key), op::data::get::<Value>
@@ -294,16 +282,6 @@ pub fn c11_split_n2() {
     split_case(2);
 }
 
-//@ harness: c11_split_n3 tier=thorough timeout=3000 kind=main mem=48 optional=1
-//@ encodes: op::data::split_with_escape
-//@ bound: path of 3 characters over the alphabet {a . \ 1} (64 paths)
-#[cfg_attr(kani, kani::proof)]
-#[cfg_attr(kani, kani::unwind(6))]
-#[cfg_attr(kani, kani::stub(std::fmt::format, stub_format))]
-#[cfg_attr(verif_replay, test)]
-pub fn c11_split_n3() {
-    split_case(3);
-}
 
 /// var(data, [k]) / var(data, [k, d]) on array data with CONCRETE key k (R1) and symbolic payloads
 pub fn var_default_case(k: i64, present: bool) {
